@@ -32,6 +32,10 @@ CLAIMED = {
  'C19': dict(text="Lean theorems (22) for every tree, edit log and path: forwarding a cursor across a log either errors or resolves to a statement that descends from the one named (never unrelated), untouched statements are unchanged, replaced runs map exactly to the replacing run, chains of passes compose; site selection: index j < k selects site j only, other indices rejected, None selects all, every candidate is a site or a refusal. Tie: random trees x well/ill-formed logs x paths against the real EditLog.forward and an independent tag-tracking Spec oracle; end-to-end on real strategies with planted tags, all where= values, cursors forwarded across 1-3 strategies.",
              note=TB + "; the per-strategy candidate loops are abstracted in the Sites model and exercised end to end.",
              tech="Lean 4 proof (induction over trees/logs) + correspondence + tag-identity Spec oracle", ref="5/C19"),
+
+ 'C15': dict(text="Lean theorem accepted_safe at full strength: if the model of the front end's definedness checker + reachability accepts a function then, for EVERY oracle of branch outcomes and trip counts (zero-trip loops, untaken one-armed ifs) and every fuel, neither the first-call analysis nor the run reads an unbound name or falls off the end; plus the rejects-leaks theorems (names introduced only in a loop/branch, loop targets). Proved over a skeleton language in which values are irrelevant, by the invariant 'marked defined => bound at run time'. Tie: every skeleton program up to a size bound (exhaustive) + random ones rendered as FPy source: the real @fpy accept/reject decision and error kind vs the model, every accepted program run on the real interpreter and on CPython on inputs steering each branch/trip count.",
+             note=TB + "; each `if` site gets one steering argument per run (the theorem quantifies over all oracles).",
+             tech="Lean 4 proof (invariant by induction over the big-step semantics) + exhaustive small-program correspondence + run-time Spec oracle", ref="5/C15"),
 }
 NA_REASON = "check not built yet (work in progress; see DESIGN.md section 8 build order)"
 
